@@ -700,6 +700,10 @@ func (t *Teamserver) EventBroadcast(ExceptClient string, pk packager.Package) {
 
 	t.Clients.Range(func(key, value any) bool {
 		ClientID := key.(string)
+		// connections that have not authenticated (yet) receive no events
+		if client, ok := value.(*Client); ok && !client.Authenticated {
+			return true
+		}
 		if ExceptClient != ClientID {
 			err := t.SendEvent(ClientID, pk)
 			if err != nil && !strings.Contains(err.Error(), "use of closed network connection") {
